@@ -285,25 +285,37 @@ def check(case, acc=None):
         fproxy = getattr(cur, d['fname'])
         field_existed = len(fproxy) > 0
         how = case['how']
+        wval = val
+        # (the element written to is itself of a base datatype: a field without components, a component without sub-components)
+        if d['sname']:
+            leaf_here = True
+        elif d['cname']:
+            leaf_here = not T.ref_children(v, d['cref']) and T.is_base(v, T.ref_dt(d['cref']) or '')
+        else:
+            leaf_here = not T.ref_children(v, d['fref']) and T.is_base(v, T.ref_dt(d['fref']) or '')
+        if case.get('obj') and leaf_here and not d.get('varies') and d['leaf_dt'] in T.lib(v).BASE_DATATYPES:
+            # the value handed over as a base datatype object instead of text
+            from hl7apy.factories import datatype_factory
+            wval = datatype_factory(d['leaf_dt'], val, v, level)
         if case['depth'] == 1 or not d['cname']:
             if how % 2 == 0:
-                setattr(cur, d['fname'], val)
+                setattr(cur, d['fname'], wval)
             else:
-                fproxy.value = val
+                fproxy.value = wval
             fields[d['i']] = {1: {1: val}}
         elif case['depth'] == 2 or not d['sname']:
             if how % 3 == 0:
-                setattr(fproxy, d['cname'], val)
+                setattr(fproxy, d['cname'], wval)
             elif how % 3 == 1:
-                getattr(fproxy, d['cname']).value = val
+                getattr(fproxy, d['cname']).value = wval
             else:
                 setattr(fproxy, '%s_%d' % (d['fname'], d['j']), val)
             fields.setdefault(d['i'], {})[d['j']] = {1: val}
         else:
             if how % 3 == 0:
-                setattr(getattr(fproxy, d['cname']), d['sname'], val)
+                setattr(getattr(fproxy, d['cname']), d['sname'], wval)
             elif how % 3 == 1:
-                getattr(getattr(fproxy, d['cname']), d['sname']).value = val
+                getattr(getattr(fproxy, d['cname']), d['sname']).value = wval
             else:
                 setattr(fproxy, '%s_%d_%d' % (d['fname'], d['j'], d['k']), val)
             fields.setdefault(d['i'], {}).setdefault(d['j'], {})[d['k']] = val
@@ -409,7 +421,8 @@ def cases(draw, versions, mcells):
             'ci': draw(st.integers(0, 30)), 'si': draw(st.integers(0, 12)), 'depth': draw(st.sampled_from([1, 2, 3, 3])),
             'pre': draw(st.lists(st.tuples(st.integers(0, 60), st.integers(0, 3)), max_size=2)),
             'reads': draw(st.lists(st.tuples(st.integers(0, 5), st.integers(0, 31), st.integers(0, 3)), min_size=1, max_size=3)),
-            'val': draw(st.integers(0, 3)), 'how': draw(st.integers(0, 5)), 'precreate': draw(st.sampled_from([0, 0, 1, 2]))}
+            'val': draw(st.integers(0, 3)), 'how': draw(st.integers(0, 5)), 'precreate': draw(st.sampled_from([0, 0, 1, 2])),
+            'obj': draw(st.integers(0, 3)) == 0}
     if m:
         case['m'] = m
     return case
